@@ -574,6 +574,10 @@ pub fn scenario_events_aspect(keys: [u8; 3], states: [u8; 3], modes: u8, n: u8, 
 /// switching the variant switches to that layout and no other, whatever was typed before.
 #[cfg(not(kani))]
 pub fn scenario_switching(keys: [u8; 3], states: [u8; 3], switch_at: u8, from: u8, to: u8, mode: bool, verbose: bool) -> bool {
+    // bit 7 of `from`: the wrapper is used by reference (`EventDecoder<&AnyLayout>`) instead of by value
+    if from & 0x80 != 0 {
+        return scenario_switching_ref(keys, states, switch_at, from & 0x7F, to, mode, verbose);
+    }
     let h = x_mode(mode);
     let mut a = EventDecoder::new(x_anylayout(from), h);
     let mut b = EventDecoder::new(x_anylayout(to), h);
@@ -589,6 +593,33 @@ pub fn scenario_switching(keys: [u8; 3], states: [u8; 3], switch_at: u8, from: u
         let rb = b.process_keyevent(KeyEvent::new(k, st));
         let must = i as u8 >= switch_at;
         say!(verbose, "step {}: event {:?}/{:?}: A (variant #{} -> #{}) -> {:?}   B (variant #{} all along) -> {:?}{}", i, k, st, from, to, ra, to, rb,
+            if must && ra != rb { "   <-- MISMATCH" } else { "" });
+        if must && ra != rb {
+            ok = false;
+        }
+    }
+    ok
+}
+
+#[cfg(not(kani))]
+fn scenario_switching_ref(keys: [u8; 3], states: [u8; 3], switch_at: u8, from: u8, to: u8, mode: bool, verbose: bool) -> bool {
+    let h = x_mode(mode);
+    let lf = x_anylayout(from);
+    let lt = x_anylayout(to);
+    let mut a = EventDecoder::new(&lf, h);
+    let mut b = EventDecoder::new(&lt, h);
+    let mut ok = true;
+    for i in 0..3usize {
+        if i as u8 == switch_at {
+            a.change_layout(&lt);
+            say!(verbose, "step {}: A.change_layout(&variant #{})", i, to);
+        }
+        let k = x_keycode(keys[i]);
+        let st = x_state(states[i]);
+        let ra = a.process_keyevent(KeyEvent::new(k, st));
+        let rb = b.process_keyevent(KeyEvent::new(k, st));
+        let must = i as u8 >= switch_at;
+        say!(verbose, "step {}: event {:?}/{:?}: A (&variant #{} -> #{}) -> {:?}   B (&variant #{} all along) -> {:?}{}", i, k, st, from, to, ra, to, rb,
             if must && ra != rb { "   <-- MISMATCH" } else { "" });
         if must && ra != rb {
             ok = false;
